@@ -38,6 +38,19 @@ MISSED_FIRST = {"C02-1": "dict keys were always generated in mesh order", "C02-2
                 "C15-11": "no refused norm specification followed by further use of the field",
                 "C16-12": "stored fields never carried a permuted or partial component-to-axis mapping",
                 "C18-11": "refused rotation requests did not include a float-typed n (refused late, by the mesh constructor)",
+                "C02-14": "no in-place move / scaling of a mesh between two per-subregion assignments",
+                "C02-15": "line end points kept a quarter-cell margin from every face, also from the faces of the region itself (where the containing cell is unambiguous); now lines start/end on corners and faces of the region, with several point counts",
+                "C10-13": "the tolerance factor of the stored subregions was not compared",
+                "C12-15": "no field above 2**16 cells in the geometric profiles (now one in 2 % of the rotation runs)",
+                "C13-13": "rejected rotate90 calls always used k = 1; now also whole turns (0, 4, -4, 8)",
+                "C13-14": "no field derived from a field (sharing its mesh object) in the transformation profiles",
+                "C13-15": "scale factors stayed within 2**-2 .. 2**2; now also 2**-60 .. 2**60 about the origin as a one-off step",
+                "C14-15": "alignment was only asked between meshes a few cells apart; now also for a copy moved by 10**4..10**6 cells and a half",
+                "C15-15": "no mesh above 2**15 cells and no norm function that reduces over the coordinates of the point",
+                "C16-14": "two fields on one mesh whose subregions have the same names and differ by one cell were never written to the same path",
+                "C16-15": "no mesh far from the origin compared with its cell size (offset/cell of 1e6..1e8)",
+                "C18-14": "rotation angles were never a fraction of a degree (caught in 2 of 4000 runs only; now small-angle runs)",
+                "C18-15": "target meshes never exceeded 2**16 cells",
                 "C16-9": "upper corners were always computed as pmin + k*cell, never the float nearest to the decimal value a user types; corners of binary/XML files compared with a tolerance instead of exactly"}
 NOT_APPLICABLE = {}
 verify = {}
